@@ -31,7 +31,7 @@ func init() {
 			"encoding.Buffer (the repository's own in-memory io.WriterAt) holds the map bytes",
 		},
 		Assumptions: []string{
-			"'stops promptly' is checked as: in runs where at least 64 items beyond the pipeline's capacity (items already handed to other goroutines or buffered in channels) remain when the failing callback returns, strictly fewer than the remaining items are started afterwards (schedule-proof; anything tighter would encode timing)",
+			"'stops promptly' is judged only under fair scheduling strategies (uniform / sticky task choice), not under the PCT-style and starve-one strategies, which can legitimately keep the failing task from signalling its failure; it is checked as: in runs where at least 64 items beyond the pipeline's capacity (items already handed to other goroutines or buffered in channels) remain when the failing callback returns, strictly fewer than the remaining items are started afterwards (schedule-proof; anything tighter would encode timing)",
 		},
 		Rule: "one case = (target API, item count, goroutine count, failing position, failure mode, slow items) under one schedule; non-trivial = the scheduler made >=2 decisions with >=2 runnable tasks; distinct = distinct hash of the (task, site) schedule trace",
 	})
@@ -508,7 +508,11 @@ func checkStreamOutcome(rc *RC, target string, plan *failPlan, items int, slack 
 		return
 	}
 	remaining := items - plan.failedAt
-	if remaining >= 64+slack {
+	if remaining >= 64+slack && !simrt.FairSchedule() {
+		// a schedule that starves the task whose callback failed (before it
+		// has signalled the failure) legitimately lets the others run on
+		rc.Probe("long-tail-not-judged-under-unfair-schedule")
+	} else if remaining >= 64+slack {
 		rc.Probe("long-tail-checked")
 		if plan.after >= remaining {
 			rc.Fail(target+"/not-prompt", "after callback %d failed, all %d remaining items were still delivered (%d callbacks started after the failure returned): the enumeration ran to the end of its input instead of stopping", plan.at, remaining, plan.after)
